@@ -356,3 +356,38 @@ def component_set_mass_fracs_incl_new_nuclide(ctx, comp, nuc):
         ctx.check_close("proportion %s:%s kept" % (k, ref), mf1[k] * mf0[ref], mf0[k] * mf1[ref],
                         scale=mf0[k] * mf1[ref] + mf1[k] * mf0[ref])
     ctx.check_close("mass fractions still sum to one", sum(mf1.values()), 1.0, scale=1.0)
+
+
+@harness("C02", bounds="assembly of 2 blocks, U235 held by the fuel of block 0 only; edit history: read queries, then a "
+                       "symbolic height change of either block through Block.setHeight, then assembly-level setters; "
+                       "all heights, densities and requested values symbolic", stubs=STUBS, qtimeout_ms=30000,
+         instances={"quick": [dict(which=0), dict(which=1)]})
+def assembly_setters_after_a_height_change(ctx, which):
+    import armi.reactor.assemblies as asmmod
+    shims.patch(asmmod, np=shims.np_shim)
+    a = _build.mk_assembly(2)
+    info = []
+    for bi, b in enumerate(a):
+        pat = {"fuel": ["U235", "ZR"] if bi == 0 else ["ZR"], "clad": ["FE"], "duct": ["FE"], "intercoolant": ["NA"]}
+        PATTERNS["_hist%d" % bi] = pat
+        info.append(fill(ctx, b, "_hist%d" % bi, tag="_%d" % bi, geom=True))
+    a.calculateZCoords()
+    # queries that may populate caches
+    a.getVolumeFractions()
+    n0 = a.getNumberDensity("U235")
+    a.getMass("FE")
+    hNew = ctx.real("hNew", 1.0, 400.0)
+    a[which].setHeight(hNew)
+    zr0 = a.getNumberDensity("ZR")
+    x = ctx.real("x", 0.0, 10.0)
+    a.setNumberDensity("U235", x)
+    got = a.getNumberDensity("U235")
+    if ctx.canary:
+        got = got * ITE(hNew > 399, 1.01, 1.0)
+    ctx.check_close("after a height change, assembly setNumberDensity still reads back", got, x, scale=x + 1e-30)
+    ctx.check_close("... and leaves ZR alone", a.getNumberDensity("ZR"), zr0, scale=zr0 + 1e-30)
+    m = ctx.real("m", 0.0, 1e5)
+    a.setMass("U235", m)
+    ctx.check_close("assembly setMass reads back after the height change", a.getMass("U235"), m, scale=m + 1e-30)
+    ctx.check_close("assembly volume follows the new height", a.getVolume(), sum(b.getVolume() for b in a),
+                    scale=a.getVolume())
